@@ -218,7 +218,7 @@ class World:
             except Exception:
                 owner = None
         for i, (name, p) in enumerate(sig.parameters.items()):
-            if p.kind == p.VAR_POSITIONAL:
+            if p.kind in (p.VAR_POSITIONAL, p.VAR_KEYWORD):
                 continue
             if contract is not None and name in contract.types_d:
                 out[name] = self.parse_type(contract.types_d[name])
@@ -255,6 +255,13 @@ class World:
             return self.type_of_hint(a)
         if fn.__name__ == '__init__':
             return NONE
+        try:
+            import ast as _ast
+            node = repo.func_ast(fn)
+            if not any(isinstance(n, _ast.Return) and n.value is not None for n in _ast.walk(node)):
+                return NONE       # unannotated procedure
+        except Exception:
+            pass
         raise Unsupported('no return type for ' + repo.qualname_of(fn))
 
     def type_facts(self, v, heap, entry_heap=None):
